@@ -77,6 +77,48 @@ func scanLoopShape(body *ast.BlockStmt) (bool, string) {
 	return true, ""
 }
 
+// scanLoopShapeContinue: the other common shape -- `m := re.FindStringSubmatch(line); if len(m) == 0 {
+// continue }; <emit statements>`. Returns the emit statements.
+func scanLoopShapeContinue(body *ast.BlockStmt) (bool, []ast.Stmt) {
+	for i, st := range body.List {
+		ifs, ok := st.(*ast.IfStmt)
+		if !ok {
+			if as, ok := st.(*ast.AssignStmt); ok && len(as.Rhs) == 1 {
+				if c, ok := as.Rhs[0].(*ast.CallExpr); ok {
+					if se, ok := c.Fun.(*ast.SelectorExpr); ok && (se.Sel.Name == "Text" || se.Sel.Name == "FindStringSubmatch") {
+						continue
+					}
+				}
+			}
+			return false, nil
+		}
+		be, ok := ifs.Cond.(*ast.BinaryExpr)
+		if !ok || ifs.Else != nil || ifs.Init != nil || be.Op != token.EQL || len(ifs.Body.List) != 1 {
+			return false, nil
+		}
+		lc, ok := be.X.(*ast.CallExpr)
+		if !ok {
+			return false, nil
+		}
+		if id, ok := lc.Fun.(*ast.Ident); !ok || id.Name != "len" {
+			return false, nil
+		}
+		if br, ok := ifs.Body.List[0].(*ast.BranchStmt); !ok || br.Tok != token.CONTINUE {
+			return false, nil
+		}
+		rest := body.List[i+1:]
+		for _, r := range rest {
+			if _, ok := r.(*ast.ExprStmt); !ok {
+				if _, ok := r.(*ast.IfStmt); !ok {
+					return false, nil
+				}
+			}
+		}
+		return true, rest
+	}
+	return false, nil
+}
+
 func init() {
 	registerProp(&propSpec{ID: "C18", Patterns: nil, Pre: checkC18})
 }
@@ -199,11 +241,65 @@ func extractTestGen(file string) (map[string]*tgMode, error) {
 		id, ok := se.X.(*ast.Ident)
 		return c, ok && id.Name == pkg
 	}
-	collect := func(n ast.Node, m *tgMode) {
+	// functions of the file and package-level patterns, so that a mode's code is followed into its
+	// helpers and a pattern hoisted into a variable is attributed to the mode that uses it
+	funcs := map[string]*ast.FuncDecl{}
+	globalRe := map[string]string{}
+	for _, d := range f.Decls {
+		switch x := d.(type) {
+		case *ast.FuncDecl:
+			if x.Recv == nil && x.Body != nil {
+				funcs[x.Name.Name] = x
+			}
+		case *ast.GenDecl:
+			for _, sp := range x.Specs {
+				vs, ok := sp.(*ast.ValueSpec)
+				if !ok {
+					continue
+				}
+				for i, nm := range vs.Names {
+					if i < len(vs.Values) {
+						if c, ok := isCall(vs.Values[i], "regexp", "MustCompile"); ok && len(c.Args) == 1 {
+							if s, ok := strLit(c.Args[0]); ok {
+								globalRe[nm.Name] = s
+							}
+						}
+					}
+				}
+			}
+		}
+	}
+	addPattern := func(m *tgMode, s string) {
+		for _, p := range m.patterns {
+			if p == s {
+				return
+			}
+		}
+		m.patterns = append(m.patterns, s)
+	}
+	var collect func(n ast.Node, m *tgMode)
+	visiting := map[*tgMode]map[string]bool{}
+	collect = func(n ast.Node, m *tgMode) {
+		if visiting[m] == nil {
+			visiting[m] = map[string]bool{}
+		}
 		ast.Inspect(n, func(x ast.Node) bool {
 			if c, ok := isCall(x, "regexp", "MustCompile"); ok && len(c.Args) == 1 {
 				if s, ok := strLit(c.Args[0]); ok {
-					m.patterns = append(m.patterns, s)
+					addPattern(m, s)
+				}
+			}
+			if id, ok := x.(*ast.Ident); ok {
+				if s, ok := globalRe[id.Name]; ok {
+					addPattern(m, s)
+				}
+			}
+			if c, ok := x.(*ast.CallExpr); ok {
+				if id, ok := c.Fun.(*ast.Ident); ok {
+					if fd := funcs[id.Name]; fd != nil && !visiting[m][id.Name] {
+						visiting[m][id.Name] = true
+						collect(fd.Body, m)
+					}
 				}
 			}
 			if c, ok := isCall(x, "strings", "HasSuffix"); ok && len(c.Args) == 2 {
@@ -215,6 +311,10 @@ func extractTestGen(file string) (map[string]*tgMode, error) {
 				if c, ok := fs.Cond.(*ast.CallExpr); ok {
 					if se, ok := c.Fun.(*ast.SelectorExpr); ok && se.Sel.Name == "Scan" {
 						m.loopOK, m.loopWhy = scanLoopShape(fs.Body)
+						if ok2, rest := scanLoopShapeContinue(fs.Body); !m.loopOK && ok2 {
+							m.loopOK, m.loopWhy = true, ""
+							m.emits = countEmits(&ast.BlockStmt{List: rest})
+						}
 					}
 				}
 			}
@@ -409,7 +509,11 @@ func checkC18(pc *propCheck) {
 }
 
 // replayTestGen: generated directory, both modes, compare the sets of tests.
-func (pc *propCheck) replayTestGen() replayResult {
+func (pc *propCheck) replayTestGen() replayResult { return pc.replayTestGenK(false) }
+
+// replayTestGenK: known = the recorded naming-gap finding itself is being replayed (then, and only
+// then, the functions the patterns are known not to match count as failures)
+func (pc *propCheck) replayTestGenK(known bool) replayResult {
 	r := replayResult{Tried: true, Cmd: "go run ./cmd/test_gen -go|-coq <generated dir> (see gvc/c18.go replayTestGen)"}
 	dir, _ := os.MkdirTemp(pc.WorkDir, "tg-")
 	files := map[string]string{
@@ -419,6 +523,15 @@ func (pc *propCheck) replayTestGen() replayResult {
 		"d.go~":       "package semantics\n\nfunc testInBackup() bool {\n\treturn true\n}\n",
 		"e.go":        "package semantics\n\nfunc test_underscore() bool {\n\treturn true\n}\n\nfunc test() bool {\n\treturn true\n}\n\nfunc testGeneric[T any]() bool {\n\treturn true\n}\n\ntype S struct{}\n\nfunc (s S) testMethod() bool { return true }\n",
 	}
+	// a file larger than the scanner's initial buffer, with a test on every few lines
+	var big strings.Builder
+	big.WriteString("package semantics\n\n")
+	var bigNames []string
+	for i := 0; i < 60; i++ {
+		fmt.Fprintf(&big, "// %s\nfunc testBig%02d() bool {\n\treturn true\n}\n\n", strings.Repeat("padding ", 12), i)
+		bigNames = append(bigNames, fmt.Sprintf("testBig%02d", i))
+	}
+	files["f_big.go"] = big.String()
 	for n, c := range files {
 		os.WriteFile(filepath.Join(dir, n), []byte(c), 0o644)
 	}
@@ -455,19 +568,22 @@ func (pc *propCheck) replayTestGen() replayResult {
 		sort.Strings(ks)
 		return ks
 	}
-	want := []string{"testAlpha", "testBeta"}
+	want := append([]string{"testAlpha", "testBeta"}, bigNames...)
+	sort.Strings(want)
 	if fmt.Sprint(keys(goTests)) != fmt.Sprint(keys(coqTests)) {
 		r.Confirmed = true
 		r.Detail = fmt.Sprintf("directory with a.go, b_test.go, c.gold.v, d.go~, e.go: -go generates tests %v, -coq generates %v", keys(goTests), keys(coqTests))
 		return r
 	}
-	if fmt.Sprint(keys(goTests)) != fmt.Sprint(append(want, "testGeneric", "test_underscore")) && fmt.Sprint(keys(goTests)) != fmt.Sprint(want) {
+	withGaps := append(append([]string(nil), want...), "testGeneric", "test_underscore")
+	sort.Strings(withGaps)
+	if fmt.Sprint(keys(goTests)) != fmt.Sprint(withGaps) && fmt.Sprint(keys(goTests)) != fmt.Sprint(want) {
 		r.Confirmed = true
 		r.Detail = fmt.Sprintf("generated tests %v, expected %v (plus the documented gaps)", keys(goTests), want)
 		return r
 	}
 	for _, miss := range []string{"test_underscore", "testGeneric", "test"} {
-		if !goTests[miss] {
+		if known && !goTests[miss] {
 			r.Detail += fmt.Sprintf("func %s is a top-level test function of the statement but produces no test in either mode; ", miss)
 		}
 	}
